@@ -5,6 +5,8 @@ made by compounds/annuli) is judged against geom.contains_member outside the
 ambiguity band; workload drives hostile regions x query sets and the `in`
 operator.
 """
+import math
+
 import numpy as np
 
 from vmon import gen, geom, monitors, spec as S
@@ -47,6 +49,20 @@ DTYPES = ['float64', 'float64', 'float64', 'float32', 'int64', 'int32']
 def generate(rng, tier, shard, nshards):
     n = 1200 if tier == "quick" else 40000
     for i in range(n):
+        if i % 40 == 7:
+            # narrow integer query types far from an integer-valued centre: distances are representable, their squares are not
+            cls = rng.choice(['CirclePixelRegion', 'CircleAnnulusPixelRegion', 'CirclePixelRegion'])
+            dt = rng.choice(['int32', 'int32', 'int16'])
+            big = 30000 if dt == 'int16' else 2 * 10 ** 9
+            r = rng.choice([10, 1000.5, 70000, 10 ** 5]) if dt == 'int32' else rng.choice([10, 250.5, 20000])
+            p = {'center': S.pix(rng.randint(-5, 5), rng.randint(-5, 5))}
+            if cls == 'CirclePixelRegion':
+                p['radius'] = r
+            else:
+                p.update(inner_radius=r / 2, outer_radius=r)
+            yield {'lane': 'int-overflow', 'region': S.reg(cls, meta=gen.meta_with_include(rng), **p), 'history': 0,
+                   'q': {'kind': 'intfar', 'form': '1d', 'shape': None, 'dtype': dt, 'n': 60, 'rs': rng.randrange(2 ** 31), 'big': big, 'r': r}}
+            continue
         r = rng.random()
         if r < 0.12:
             leaf = lambda: gen.pixel_region_spec(rng, classes=gen.MASKABLE + ['PointPixelRegion'], size=gen.logu(rng, 1, 100),
@@ -114,7 +130,13 @@ def make_queries(region, q):
         delta = 10.0 ** nrng.uniform(-6, -2, m) * nrng.choice([-1.0, 1.0], m) * L
         return xa + dx / nn * delta, ya + dy / nn * delta
 
-    if kind == 'bbox':
+    if kind == 'intfar':
+        mags = 10.0 ** nrng.uniform(1, math.log10(q['big'] / 2.5), n)
+        ang = nrng.uniform(0, 2 * math.pi, n)
+        x, y = cx + mags * np.cos(ang), cy + mags * np.sin(ang)
+        k = n // 3
+        x[:k], y[:k] = cx + nrng.uniform(-1.5, 1.5, k) * q['r'], cy + nrng.uniform(-1.5, 1.5, k) * q['r']
+    elif kind == 'bbox':
         x, y = bbox_pts(n)
     elif kind == 'boundary':
         x, y = boundary_pts(n)
